@@ -4,15 +4,15 @@ func init() {
 	props["C09"] = &propDef{
 		info: PropInfo{
 			Bounds: []string{
-				"zoom-in/zoom-out/merge/overlap round trip: base zooms (h,v) in {0,1,10,24,25,33}^2-diagonal plus mixed pairs, zoom-in (dh,dv) with dh+dv <= 2 (quick) / dh,dv <= 2 with 2*dh+dv <= 4 (thorough); indices symbolic, both signs for f",
-				"cross-ordered pairs: the ancestors (h-a, v) and (h, v-b) of one voxel overlap, for (h,v,a,b) in {(3,3,1,1),(3,3,2,1),(20,18,2,2),(26,26,1,2),(2,1,2,1)}", "ancestor nesting: zoom-out distances (a1,a2) in {(1,2),(1,5),(3,25),(10,35)} from bases 35, 26, 25, 12",
+				"zoom-in/zoom-out/merge/overlap round trip: base zooms (h,v) in {0,1,9,10,24,25,33}^2-diagonal plus mixed pairs, zoom-in (dh,dv) with dh+dv <= 2 (quick) / dh,dv <= 2 with 2*dh+dv <= 4 (thorough); indices symbolic, both signs for f",
+				"cross-ordered pairs: the ancestors (h-a, v) and (h, v-b) of one voxel overlap, for (h,v,a,b) in {(3,3,1,1),(3,3,2,1),(20,18,2,2),(26,26,1,2),(2,1,2,1),(10,10,1,1)}", "ancestor nesting: zoom-out distances (a1,a2) in {(1,2),(1,5),(3,25),(10,35)} from bases 35, 26, 25, 12",
 				"point-level nesting (the ID of a point at a coarser zoom equals the zoom-out of its ID at a finer zoom): vertical axis decided exactly in IEEE arithmetic for every ordered zoom pair in the C01 harness VerifC09PointVertical; horizontal x axis decided for zoom pairs where the finer zoom is <= 26 (VerifC09PointX)",
 			},
 			Outside: []string{"point nesting on the latitude axis (libm transcendentals: no solver theory)", "zoom-in by more than 2 levels per axis"},
 		},
 		insts: func(tier string) []*Instance {
 			var is []*Instance
-			bases := [][2]int{{0, 0}, {1, 1}, {10, 10}, {24, 24}, {25, 25}, {33, 33}, {3, 20}, {25, 1}}
+			bases := [][2]int{{0, 0}, {1, 1}, {9, 9}, {10, 10}, {24, 24}, {25, 25}, {33, 33}, {3, 20}, {25, 1}}
 			for _, b := range bases {
 				for dh := 0; dh <= 2; dh++ {
 					for dv := 0; dv <= 2; dv++ {
@@ -33,7 +33,13 @@ func init() {
 					is = append(is, in)
 				}
 			}
-			for _, c := range [][4]int{{3, 3, 1, 1}, {3, 3, 2, 1}, {20, 18, 2, 2}, {26, 26, 1, 2}, {2, 1, 2, 1}} {
+			// zoom pairs whose decimal texts order differently from their values (9 vs 10)
+			is = append(is, func() *Instance {
+				in := mk("detector", "VerifC09Ancestors", cs("h", 10, "v", 10, "a1", 1, "a2", 2))
+				in.Unwind = 40
+				return in
+			}())
+			for _, c := range [][4]int{{3, 3, 1, 1}, {3, 3, 2, 1}, {20, 18, 2, 2}, {26, 26, 1, 2}, {2, 1, 2, 1}, {10, 10, 1, 1}} {
 				in := mk("detector", "VerifC09Cross", cs("h", c[0], "v", c[1], "a", c[2], "b", c[3]))
 				in.Unwind = 40
 				is = append(is, in)
